@@ -16,10 +16,10 @@ def P(pid, **kw):
 _EXPL = "exploration"
 
 P("C01",
-  technique="PBT with independent oracle: rapid-generated envelopes (fresh / near-miss / re-assembled / byte-mutated) x policies x reader behaviours x decoy signatures listed first; own JWS+COSE verifier and own payload decoder decide what a success may be; native fuzz in thorough",
+  technique="PBT with independent oracle: rapid-generated envelopes (fresh / near-miss / re-assembled / byte-mutated) x policies x reader behaviours x decoy signatures listed first; own JWS+COSE verifier and own payload decoder decide what a success may be; payloads that lie about one field of the presented artifact; eight goroutines presenting matching and mismatching artifacts to one verifier; native fuzz in thorough",
   level_text="Exploration: every success reported by verifier.Verify/VerifyBlob and notation.Verify/VerifyBlob over generated envelopes, descriptors, metadata maps and all 24 enforcement maps is re-checked by an independent implementation of the envelope formats; cannot prove absence, but reaches the products of factors (mismatch x satisfied metadata, customised level x tampering) the unit tests never combine.",
   level_note="Trusts Go's crypto primitives, the harness's own JWS/COSE implementation (cross-validated against the library in both directions in every run) and fxamacker/cbor.",
-  health={"success": 50, "src=fresh": 20, "src=descriptor-nearmiss": 20, "src=metadata-nearmiss": 20, "src=reassembled": 20, "src=bytemutated": 20, "src=wrong-payload-type": 5, "plugin-misbehaves=nil-response": 50, "src=payload-size-lies": 100},
+  health={"success": 50, "src=fresh": 20, "src=descriptor-nearmiss": 20, "src=metadata-nearmiss": 20, "src=reassembled": 20, "src=bytemutated": 20, "src=wrong-payload-type": 5, "plugin-misbehaves=nil-response": 50, "src=payload-size-lies": 100, "concurrent-verifications-one-verifier": 1, "genuine-signature-verified-earlier-on-the-same-verifier": 200, "reassembled-from-signatures-verified-earlier": 50},
   fuzz=[{"name": "FuzzC01_VerifyJWS", "seconds": 120}, {"name": "FuzzC01_VerifyCOSE", "seconds": 120}],
   assumptions=["cryptographic soundness of RSASSA-PSS/ECDSA as implemented by Go", "valid = valid under the six supported algorithms"])
 
@@ -34,13 +34,13 @@ P("C03",
   technique="model-based PBT: generated placements of chain certificates into typed named stores x statement store lists; set-semantics oracle + call-log invariant of an instrumented trust store; scripted and real directory-backed stores; verifier instances reused across verifications; eight goroutines verifying through one verifier over the real store against the sequential model; generated store names that reach other directories (constructor, late edit, direct store call); blob statement selection by generated names against a three-statement document",
   level_text="Exploration: authenticity verdict and the exact (type,name) sequence of trust-store loads compared with a set-semantics model over generated placements, multi-statement documents, both schemes and formats.",
   level_note="Trusts the instrumented trust store mock; a sub-family runs against the real directory-backed store.",
-  health={"auth=pass": 30, "auth=fail": 30, "decoy-wrong-type": 10, "decoy-unlisted": 10, "decoy-other-statement": 10, "listed-store-error": 10, "real-directory-store": 10, "verification-plugin=ti": 100, "scope-case-twin-selected": 100, "plugin-runs-after-logged-authenticity-failure": 50, "concurrent-verifications": 1, "listed-store-is-symlink": 50, "listed-store-bundle-ends-in-leaf": 50, "store-name-reaching-elsewhere": 100, "name-route=late": 30, "name-route=direct": 15, "blob-unknown-name-with-global-statement-present": 30})
+  health={"auth=pass": 30, "auth=fail": 30, "decoy-wrong-type": 10, "decoy-unlisted": 10, "decoy-other-statement": 10, "listed-store-error": 10, "real-directory-store": 10, "verification-plugin=ti": 100, "scope-case-twin-selected": 100, "plugin-runs-after-logged-authenticity-failure": 50, "concurrent-verifications": 1, "listed-store-is-symlink": 50, "listed-store-bundle-ends-in-leaf": 50, "store-name-reaching-elsewhere": 100, "name-route=late": 30, "name-route=direct": 15, "blob-unknown-name-with-global-statement-present": 30, "store-contents-rotated-on-long-lived-verifier": 200, "trust-withdrawn-by-rotation": 30, "listed-store-holds-sub-directory": 20})
 
 P("C04",
-  technique="model-based + metamorphic PBT: structured subject/identity generators, own RFC 4514 renderer with generated spacing/alias/escaping; subset oracle on structured data; permutation/spacing/alias invariance; identity lists edited after construction (one-sided oracle); verifier reuse across an OCI and a same-named blob statement",
+  technique="model-based + metamorphic PBT: structured subject/identity generators, own RFC 4514 renderer with generated spacing/alias/escaping; subset oracle on structured data; permutation/spacing/alias invariance; identity lists edited after construction (one-sided oracle); verifier reuse across an OCI and a same-named blob statement; eight goroutines verifying two signers under six statements of one verifier against the statement's table",
   level_text="Exploration: verdicts of the identity check on generated leaf/CA subjects and identity lists compared with a subset model evaluated on the structured form (the harness never parses DNs), plus metamorphic invariances.",
   level_note="Trusts Go's pkix RDN encoding and the harness's escaper (cross-checked by the exact-match positive class).",
-  health={"class=match": 30, "class=subset": 30, "class=superset": 20, "class=nearmiss": 20, "class=ca-subject": 20, "class=uninterpretable": 10, "class=wildcard": 5, "class=no-x509-identity": 5, "reused-verifier": 20, "blob-statement-with-same-name": 100, "late-mixed-invalid-and-matching": 30, "identity-with-empty-value": 100, "identity-empty-value-against-valued-attribute": 10},
+  health={"class=match": 30, "class=subset": 30, "class=superset": 20, "class=nearmiss": 20, "class=ca-subject": 20, "class=uninterpretable": 10, "class=wildcard": 5, "class=no-x509-identity": 5, "reused-verifier": 20, "blob-statement-with-same-name": 100, "late-mixed-invalid-and-matching": 30, "identity-with-empty-value": 100, "identity-empty-value-against-valued-attribute": 10, "concurrent-verifications-one-verifier": 1},
   fuzz=[{"name": "FuzzC04_Identities", "seconds": 180}])
 
 P("C05",
@@ -59,11 +59,11 @@ P("C07",
   technique="round-trip PBT: sign with the real signing API (local + honest in-process plugin signers) then verify; payload/digest/expiry/descriptor/metadata compared with the harness's own computation; reused plugin signer across keys, earlier untrusted signature of the other format, large metadata through the library's repository client, failing blob sources; plugins that answer one command once with a retryable error; overlapping Sign calls on one signer with the schedule owned through a yielding context logger and plugin",
   level_text="Exploration: full sign->verify round trips over key specs x formats x signer kinds x OCI/blob targets x metadata x expiry; every observable the statement names is recomputed independently.",
   level_note="Trusts Go's crypto and JSON; JWS descriptor sizes are bounded by 2^53 (known finding F13 in a dependency).",
-  health={"kind=oci": 20, "kind=blob": 20, "signer=local": 10, "signer=plugin-raw": 10, "signer=plugin-envelope": 10, "format=jws": 20, "format=cose": 20, "artifact-annotations-empty-map": 20, "signer-reused-after-other-key": 20, "verify-omits=media-type": 10, "untrusted-signature-of-other-format-listed-first": 20, "large-metadata-through-registry-client": 6, "plugin-transient-error-after-blob-was-read": 10, "overlap-signer=local": 4, "overlap-signer=plugin-envelope": 4},
+  health={"kind=oci": 20, "kind=blob": 20, "signer=local": 10, "signer=plugin-raw": 10, "signer=plugin-envelope": 10, "format=jws": 20, "format=cose": 20, "artifact-annotations-empty-map": 20, "signer-reused-after-other-key": 20, "verify-omits=media-type": 10, "untrusted-signature-of-other-format-listed-first": 20, "large-metadata-through-registry-client": 6, "plugin-transient-error-after-blob-was-read": 10, "overlap-signer=local": 4, "overlap-signer=plugin-envelope": 4, "trust-store-content-rotated-on-long-lived-verifier": 50},
   shards={"quick": 12, "thorough": 16})
 
 P("C08",
-  technique="model-based + metamorphic PBT: confusable scope alphabet, all statement permutations, generated references; exact-membership model; mutation-isolation (private copy) oracle via deep snapshots",
+  technique="model-based + metamorphic PBT: confusable scope alphabet, all statement permutations, generated references; exact-membership model; mutation-isolation (private copy) oracle via deep snapshots; verifier objects reused across references of one artifact digest; documents with two fallback statements must be unusable",
   level_text="Exploration (cheap, very many cases): selection compared with an exact-membership model on generated valid documents and references, permutation invariance, and deep-mutation of every returned statement followed by snapshot comparison.",
   level_note="Repository paths are known well-formed by construction; trusts reflect.DeepEqual for snapshots.",
   health={"hit=exact": 100, "hit=wildcard": 100, "hit=none": 100, "ref=nearmiss": 100, "ref=variant": 100, "ref=shape": 100,
@@ -71,7 +71,7 @@ P("C08",
           "privacy-mutation": 100, "privacy=oci": 50, "privacy=blob": 50, "privacy=global": 50,
           "place=override-map/add-key": 50, "place=override-map/change-values": 50, "place=registryScopes/elements": 50,
           "place=trustStores/append": 50, "place=trustedIdentities/elements": 50,
-          "via=verifier": 100, "via=verify": 50, "via=skipverify": 50, "via=verifyblob": 50, "verify=ok": 50, "verifier:refused": 50})
+          "via=verifier": 100, "via=verify": 50, "via=skipverify": 50, "via=verifyblob": 50, "verify=ok": 50, "verifier:refused": 50, "verifier:reused-for-other-references": 500, "two-fallback-statements:oci": 50, "two-fallback-statements:blob": 20})
 
 P("C09",
   technique="grammar-based PBT with rule-violation operators: valid documents from a grammar + 0..2 labelled violating edits; accept iff zero edits (validity known by construction); native fuzz over policy JSON in thorough",
@@ -104,16 +104,16 @@ P("C11",
   technique="stateful PBT (rapid state machine of 1..3 SignOCI calls) over a retaining scripted repository, an in-memory store and an on-disk OCI layout; tree-diff and deep-snapshot oracles",
   level_text="Exploration over call sequences: signer input, pushed subject/annotations, and the complete before/after state of repository, descriptors and option maps are compared with pristine copies.",
   level_note="Trusts oras-go's OCI layout implementation and the harness's tree snapshot.",
-  health={"repo=scripted": 20, "repo=oci-layout": 20, "calls>=2": 20, "meta=colliding": 5, "meta=reserved": 5, "ref=digest-mismatch": 5, "signer-annotations=clashing": 100, "plugin-backed-signer=envelope": 100, "plugin-backed-signer=envelope-drops-annotations": 50, "reference-moves-after-first-resolve": 50})
+  health={"repo=scripted": 20, "repo=oci-layout": 20, "calls>=2": 20, "meta=colliding": 5, "meta=reserved": 5, "ref=digest-mismatch": 5, "signer-annotations=clashing": 100, "plugin-backed-signer=envelope": 100, "plugin-backed-signer=envelope-drops-annotations": 50, "reference-moves-after-first-resolve": 50, "signing-key-with-other-hash-than-sha256": 100, "ref=digest-mismatch-other-algorithm": 20})
 
 P("C12",
-  technique="robustness PBT + fuzzing: structured mutations of valid inputs and the full verifier-configuration cross product run under recover with allocation accounting; hostile on-disk OCI layouts and an in-process hostile HTTP registry behind the real oras client; four native fuzz targets in thorough",
+  technique="robustness PBT + fuzzing: structured mutations of valid inputs and the full verifier-configuration cross product run under recover with allocation accounting; hostile on-disk OCI layouts and an in-process hostile HTTP registry behind the real oras client; generated shapes of the trust-store directory tree x store names of any length; four native fuzz targets in thorough",
   level_text="Exploration: every public entry point x input kind x verifier configuration is called under recover; a panic, a runaway allocation (explicit threshold) or an inconsistent (outcome, error) pair is a violation.",
   level_note="'Runaway allocation' is an explicit threshold (512 MiB for inputs < 4 MiB), not a proof of boundedness; a worker ended by the Go runtime's fatal out-of-memory error counts as a violation when the allocating goroutine's stack is inside notation-go (the driver reads the crash report; the replay re-runs the shard); other worker deaths (panics in goroutines the library might spawn) are reported as inconclusive.",
   crash_is_violation=True,
   health={"entry=verifier.Verify": 50, "entry=verifier.VerifyBlob": 50, "entry=notation.Verify": 20, "entry=notation.VerifyBlob": 20, "entry=SkipVerify": 20,
           "config-cross": 50, "parsed": 50, "envelope-content": 50, "outcome=ok": 50, "outcome=err": 50, "resigned": 50,
-          "family=1": 1000, "family=2": 1000, "family=4": 100, "family=5": 1000, "family=6": 100,
+          "family=1": 1000, "family=2": 1000, "family=4": 100, "family=5": 1000, "family=6": 100, "family=5b": 100, "tree-shape=type-dir-is-file": 5, "tree-name=longer-than-a-file-name": 20,
           "wrong-kind-verifier": 50, "skip-level:notation.VerifyBlob": 20, "skip-level:notation.Verify": 20, "skip-level:SkipVerify": 20, "construct=error": 10,
           "docs=oci": 50, "docs=blob": 50, "docs=both": 50, "level=strict": 50, "level=permissive": 50, "level=audit": 50, "level=skip": 50,
           "blobstmt=named": 50, "blobstmt=global": 50, "pm=nil": 50, "pm=scripted": 50, "sig=valid": 50, "sig=invalid": 50, "sig=plugin": 50,
@@ -128,7 +128,7 @@ P("C12",
   fuzz=[{"name": "FuzzC12_Envelope", "seconds": 90}, {"name": "FuzzC12_PolicyJSON", "seconds": 60}, {"name": "FuzzC12_ConfigJSON", "seconds": 60}, {"name": "FuzzC12_CacheEntry", "seconds": 60}])
 
 P("C13",
-  technique="model-based PBT over real directory trees: generated store type/name/directory shape/entries; all-or-nothing oracle on exact DER multiset and typed errors; store values reused across in-place content changes; >1 MiB bundles; twelve goroutines loading twelve stores from one store value",
+  technique="model-based PBT over real directory trees: generated store type/name/directory shape/entries; all-or-nothing oracle on exact DER multiset and typed errors; store values reused across in-place content changes; >1 MiB bundles; twelve goroutines loading twelve stores from one store value; contexts whose deadline passes at their n-th poll",
   level_text="Exploration: GetCertificates on generated trust-store trees compared with a model that knows every entry's validity by construction.",
   level_note="FIFOs/devices are excluded (would block); runs as root, so permission-denied classes are not generated.",
   health={"ok": 50, "fail": 50, "model=succeed": 50, "model=either": 5, "type=ca": 20, "type=signingAuthority": 20, "type=tsa": 20, "type=invalid": 10,
@@ -139,11 +139,11 @@ P("C13",
           "entry=leaf": 10, "entry=ssleaf": 10, "entry=empty": 5, "entry=garbage": 5, "entry=pem-noncert": 5, "entry=pem-text": 5, "entry=subdir": 10,
           "entry=symlink": 10, "entry=dangling": 5,
           "reason=empty-store": 5, "reason=tsa-nonroot-inter": 5, "reason=tsa-nonroot-cross": 3, "reason=entry-leaf": 10,
-          "bad-among-good": 20, "bad-after-good": 10, "decoy-sibling": 50, "decoy-sibling-same-type": 20, "decoy-stray-file": 50, "large-bundle": 10, "concurrent-loads": 1})
+          "bad-among-good": 20, "bad-after-good": 10, "decoy-sibling": 50, "decoy-sibling-same-type": 20, "decoy-stray-file": 50, "large-bundle": 10, "concurrent-loads": 1, "context-ends-during-load": 200, "context-ends-during-load-of-several-files": 20})
 
 P("C14",
   level="fault_enumeration",
-  technique="schedule and crash-point enumeration: hook-owned interleavings (bounded-exhaustive for 2 writers) with a read of every URL after every step, kill at every hook step of generated store sequences, strace kill injection at every cache syscall (thorough), strace error injection (the n-th write/close/renameat/... fails with ENOSPC, EIO, EACCES; quick and thorough), free-running goroutine/process stress incl. many URLs on one shared cache value; porcupine register linearizability as the history oracle",
+  technique="schedule and crash-point enumeration: hook-owned interleavings (bounded-exhaustive for 2 writers) with a read of every URL after every step, kill at every hook step of generated store sequences, strace kill injection at every cache syscall (thorough), strace error injection (the n-th write/close/renameat/... fails with ENOSPC, EIO, EACCES; quick and thorough), free-running goroutine/process stress incl. many URLs on one shared cache value; cache roots on another file system than $TMPDIR (/dev/shm) in the crash and free-running explorers; porcupine register linearizability as the history oracle",
   level_text="Fault enumeration: every step boundary of a store (temp created / written / closed / renamed) is used as a pre-emption point and as a crash point; histories are checked for linearizability as a per-URL register and every read must be a miss or a byte-exact stored bundle.",
   level_note="Crash = SIGKILL of the writing process (no power loss / fsync semantics); scheduling inside a single write(2) is only sampled by the free-running explorer. Uses the verif-tag hooks in internal/file.WriteFile; the free-running and strace explorers do not depend on them.",
   helpers=["crlworker"],
@@ -165,10 +165,10 @@ P("C15",
   fuzz=[{"name": "FuzzC15_CacheEntry", "seconds": 120}])
 
 P("C16",
-  technique="PBT over a path-traversal name grammar with planted sentinel executables and decoy directories inside a sacrificial tree; no-execution / no-change tree-diff oracle; end-to-end through verifier.Verify with the real CLIManager",
+  technique="PBT over a path-traversal name grammar with planted sentinel executables and decoy directories inside a sacrificial tree; no-execution / no-change tree-diff oracle; end-to-end through verifier.Verify with the real CLIManager; listing over generated tree shapes with the plugin root spelt directly, through symlinks and uncleanly",
   level_text="Exploration: for every generated name and operation the whole sacrificial base is snapshotted before/after; a marker written by a sentinel or any tree change for a non-single-component name is a violation; positive control proves executions are observable.",
   level_note="Containment: '..' depth is bounded below the root depth and every case whose join would leave the sacrificial base is skipped and counted.",
-  health={"name=traversal": 50, "name=plain": 20, "op=get": 20, "op=uninstall": 20, "op=install-file": 10, "op=install-dir": 10, "op=verify-e2e": 10, "op=list": 10, "namekind=long-then-traversal": 100, "plugin-directory-is-symlink": 50, "symlink-target-without-executable": 20, "no-other-plugin-in-root": 50},
+  health={"name=traversal": 50, "name=plain": 20, "op=get": 20, "op=uninstall": 20, "op=install-file": 10, "op=install-dir": 10, "op=verify-e2e": 10, "op=list": 10, "namekind=long-then-traversal": 100, "plugin-directory-is-symlink": 50, "symlink-target-without-executable": 20, "no-other-plugin-in-root": 50, "list-root-via=symlink": 50, "list-root-via=symlink-chain": 20},
   shards={"quick": 8, "thorough": 16})
 
 P("C17",
@@ -204,7 +204,7 @@ P("C19",
   technique="stateful model-based PBT (rapid state machine of pushes / foreign and hostile referrers / reopen / list / fetch) over an on-disk OCI layout and an in-memory store; multiset model of signatures per subject; blob-cap boundary with real content; returned slices held across later calls; push descriptors that lie about the artifact type; second state machine over registry.NewOCIRepository with the layout read back through handles opened after the pushes",
   level_text="Exploration over push histories: listing and fetching compared with a model multiset per subject; hostile referrers must be refused before their content is read (blob-fetch log).",
   level_note="One oci.Store instance per session (oras behaviour); trusts oras-go's store for the non-notation parts.",
-  health={"store=disk": 100, "store=memory": 100, "subjects>=2": 100, "subjects-same-content": 50, "reopened": 20, "layout-listed-through-another-handle-after-push": 30, "layout-pushed-through-several-handles": 20,
+  health={"store=disk": 100, "store=memory": 100, "subjects>=2": 100, "subjects-same-content": 50, "reopened": 20, "layout-listed-through-another-handle-after-push": 30, "layout-pushed-through-several-handles": 20, "many-signatures": 20, "signatures-of-one-artifact>=9": 5, "signatures-of-one-artifact>=33": 1,
           "op=push-signature": 500, "op=push-foreign": 300, "op=push-hostile": 300, "op=list": 1000, "op=fetch": 1000, "op=fetch:kept": 100,
           "op=fetch-hostile": 300, "op=reopen": 50, "env=1B": 20, "env=256KiB": 20,
           "op=push-foreign:other-type": 30, "op=push-foreign:legacy-other-type": 30, "op=push-foreign:legacy-notation": 30,
